@@ -327,7 +327,7 @@ func (c *Chain) signedTx(script []byte, signers []neotest.Signer, payer bool) *t
 func Script(h util.Uint160, method string, args ...any) []byte {
 	script, err := smartcontract.CreateCallScript(h, method, args...)
 	if err != nil {
-		panic(fmt.Sprintf("chainkit: cannot build script for %s: %v", method, err))
+		panic(HarnessError{Msg: fmt.Sprintf("chainkit: cannot build script for %s: %v", method, err)})
 	}
 	return script
 }
